@@ -160,14 +160,14 @@ def run(ck: Check) -> None:
     for _ in range(n_main):
         progs.append(G.gen_main_program(rng, k)); origins.append(f"gen#{k}"); k += 1
     for _ in range(n_str):
-        progs.append(G.gen_string_program(rng, k)); origins.append(f"inside-known-class(str)#{k}"); k += 1
+        progs.append(G.gen_string_program(rng, k)); origins.append(f"hard-strings#{k}"); k += 1
     sweep = G.escape_sweep_programs(k)
     if ck.quick:
         sweep = rng.sample(sweep, 2)
     for sp in sweep:
-        progs.append(sp); origins.append(f"inside-known-class(escape sweep)#{k}"); k += 1
+        progs.append(sp); origins.append(f"escape-sweep#{k}"); k += 1
     for _ in range(n_dz):
-        progs.append(G.gen_divzero_program(rng, k)); origins.append(f"inside-known-class(div)#{k}"); k += 1
+        progs.append(G.gen_divzero_program(rng, k)); origins.append(f"zero-divisor#{k}"); k += 1
     for _ in range(n_err):
         progs.append(G.gen_error_program(rng, k)); origins.append(f"error#{k}"); k += 1
 
@@ -179,7 +179,7 @@ def run(ck: Check) -> None:
         job["kinds"] = kinds
         jobs.append(job)
     # which constants gcc should print: every boolean and string of main-stream programs, integers
-    # inside the C range (the range is the theorem's hypothesis); strings of the inside-class
+    # inside the C range (the range is the theorem's hypothesis); strings of the hard-strings
     # stream are compiled one by one because a broken literal breaks the whole header
     for job, prog in zip(jobs, progs):
         stream = prog.get("stream", "main")
@@ -501,7 +501,6 @@ def run(ck: Check) -> None:
             ck.violation(f"constant {nm}: the literal emitted into {lang} does not denote the declared value",
                          base, found_input=True, key=key)
 
-    # a known finding is only "still there" when its committed witness still fails
     cov = ck.coverage
     cov["evaluations"] = n_eval
     cov["distinct_nontrivial"] = len(distinct)
@@ -511,9 +510,11 @@ def run(ck: Check) -> None:
                    "minimal parentheses or with redundant parentheses / leading zeros / mixed-case hex / irregular "
                    "blanks and tabs; booleans in all four spellings; strings over printable ASCII, tab, quote ', "
                    "control characters, UTF-8; lone references `const X = Y`), a message whose max_bytes option and "
-                   "uint8[CONST] capacities name constants; separate small streams INSIDE the known-finding classes "
-                   "(strings containing \" \\ LF CR NUL and escape-looking sequences; expressions with a zero divisor) and "
-                   "diagnosed errors (undefined / non-integer reference, duplicate, bad escape, syntax). One evaluation = "
+                   "uint8[CONST] capacities name constants; half of the strings of the main stream and all of the "
+                   "hard-strings / escape-sweep streams contain \" \\ LF CR NUL and escape-looking sequences (the class of "
+                   "the fixed finding str-escape: read back one by one as well as through the whole module/header); "
+                   "expressions with a zero divisor (class of the fixed finding div-zero: must be the diagnosed error) and "
+                   "other diagnosed errors (undefined / non-integer reference, duplicate, bad escape, syntax). One evaluation = "
                    "one compared item (constant value, use, emitted literal x language); distinct_nontrivial = distinct "
                    "(expression tree, source text) pairs with at least one operator + distinct string spellings")
     cov["samples"] = samples
